@@ -1,6 +1,6 @@
 (** C05 -- Calls bind by position, return the executed return value, and unwind cleanly. *)
 From Pakhi Require Import Base Float64 Syntax Tables Lexer Interp.
-From Pakhi.Proofs Require Import Assoc Scope Control.
+From Pakhi.Proofs Require Import Assoc Scope Control WF WFOps FrameInv NoPanic.
 Local Open Scope nat_scope.
 
 Theorem C05_arguments_bound_by_position : forall ev p ps a args env m v m1,
@@ -44,3 +44,20 @@ Theorem C05_parameter_rebinding_is_local : forall x v inner outer ss', alist_has
   assign_var x v (inner :: outer) = Some ss' -> tl ss' = outer.
 Proof. exact assign_inner_keeps_outer. Qed.
 Print Assumptions C05_parameter_rebinding_is_local.
+
+(* the general form: any expression -- with calls nested to any depth, recursion, returns from inside loops and blocks
+   -- evaluated on a well-formed machine over a statement vector the parser can produce leaves the caller's program
+   position, scope-stack height, loop stack, loop base and return stack exactly as they were *)
+Theorem C05_expression_restores_caller : forall code, code_ok code -> forall fuel e m v m',
+  mwf code m -> expr_ok e = true -> eval code fuel e m = Ok (v, m') ->
+  m_pc m' = m_pc m /\ length (m_scopes m') = length (m_scopes m) /\ m_loops m' = m_loops m /\
+  m_loop_base m' = m_loop_base m /\ m_ret m' = m_ret m.
+Proof. exact eval_restores_caller. Qed.
+Print Assumptions C05_expression_restores_caller.
+
+(* while a body runs, the frame invariant holds at every statement: the scope-stack height is the height at the call
+   plus the static block depth of the position *)
+Theorem C05_frame_invariant_preserved : forall code, code_ok code -> forall fuel m m', mwf code m -> interp code fuel m = Ok m' ->
+  mwf code m' /\ forall F, frame_static code F -> finv code F m -> finv code F m'.
+Proof. exact interp_keeps_invariants. Qed.
+Print Assumptions C05_frame_invariant_preserved.
